@@ -3,11 +3,19 @@ from html import escape
 from protocol_code_generator.generate.code_block import CodeBlock
 
 
+def escape_docstring_text(text):
+    """
+    Escapes text from the protocol XML so that it can be placed inside a triple-quoted docstring.
+    """
+    text = escape(text, quote=False)
+    return text.replace('\\', '\\\\').replace('"""', '\\"\\"\\"')
+
+
 def generate_docstring(protocol_comment):
     lines = []
 
     if protocol_comment:
-        lines.extend(map(str.strip, escape(protocol_comment, quote=False).split('\n')))
+        lines.extend(map(str.strip, escape_docstring_text(protocol_comment).split('\n')))
 
     result = CodeBlock()
     if lines:
